@@ -36,7 +36,7 @@ def hostile_string(rng, n=12):
 
 class C01(Spec):
     pid = "C01"
-    groups = ["vrender", "vansi", "vpub"]
+    groups = ["vrender", "vansi", "vpub", "vnet"]
     no_compare_ops = ("item",)
     title = "Remote content can never emit terminal control sequences"
     oracle_filter = {"safe", "wf_out", "well_formed_result"}
@@ -45,7 +45,8 @@ class C01(Spec):
             "character references for control code points in text and in attribute values (&#27; &#155; &#x9b; ...), hostile tag "
             "names; style.Problem on arbitrary error text (status lines carrying ESC); ansi.Scrub and SetLength on hostile text; "
             "widths -5..200. Oracle on the implementation's output: the extracted terminal machine shows only printable runes and "
-            "newlines (safe_b). thorough: one hostile rune (all 65 of them) at every position of seed documents. "
+            "newlines (safe_b). NETWORK: items opened on the loopback simulator whose performer / target / outbox / author / parent is behind a server that puts "
+            "ESC, CSI, OSC, CR, BS, DEL and bidi controls into its status line, Content-Type or Location (the bytes error messages quote). thorough: one hostile rune (all 65 of them) at every position of seed documents. "
             "non-trivial = the input contains a control character or a control-character reference.")
     assumptions = ["html.ParseFragment / goldmark are library oracles (the model renders the tree the library produced, and the theorem "
                    "quantifies over every tree)",
@@ -124,6 +125,25 @@ class C01(Spec):
         return [Batch("c01", cases, correspondence="GetMarkup+Render / style.Problem / Scrub == models"),
                 Batch("c01-items", items, env={"VERIF_CASE_TIMEOUT": "20"},
                       correspondence="Post/Actor Name, String, Preview == Pub model; every Tangible's texts pass the terminal oracle")]
+
+
+    def extra_checks(self, scratch, binary, rng, tier, report):
+        """items opened over the network whose performer / target / outbox / author is behind a server that puts control sequences
+        into the bytes servitor's error messages quote (status line, Content-Type, Location): nothing but servitor's own SGR
+        sequences may reach the terminal"""
+        import netgen
+        import runner
+        base = netgen.pick_port_base(rng)
+        cases = [netgen.hostile_error_world(rng, base).case() for _ in range(60 if tier == "quick" else 3000)]
+        b = Batch("c01-net", cases, config="[network]\ntimeout_seconds = 2\n", env={"VERIF_SIM_PORT_BASE": str(base), "VERIF_CASE_TIMEOUT": "30"},
+                  timeout=900, correspondence="texts of items whose parts failed to load with hostile error bytes are safe")
+        b.parallel = False
+        saved = (self.oracle_filter, self.no_compare_ops)
+        self.oracle_filter, self.no_compare_ops = {"item_text_safe", "item_text_wf"}, self.no_compare_ops + ("net",)
+        try:
+            runner.run_batches(self, scratch, binary, [b], report)
+        finally:
+            self.oracle_filter, self.no_compare_ops = saved
 
     def search_batches(self, rng, tier):
         return [Batch("c01-search", self.gen(rng, 6000))]
